@@ -109,7 +109,7 @@ def run(ctx: Ctx) -> int:
     st_progs, st_paths, st_errors = selftest.run()
     outcome.harness_errors += ["encoder self-test: " + e for e in st_errors]
     text = gen_int_fields.generate(VERIF, ctx.tier)
-    kres = chrunner.run_module(text, f"k_c06_{ctx.tier}", timeout=40 if ctx.quick else 120)
+    kres = chrunner.run_module(text, f"k_c06_{ctx.tier}", timeout=60 if ctx.quick else 120)
     kcounts = common.k_results_to_outcome(ctx, kres, outcome, "k_c06")
     programs = family(ctx)
     cov = sdriver.run_family(ctx, "c06", programs, outcome)
@@ -133,7 +133,7 @@ def run(ctx: Ctx) -> int:
                                              lambda: GroupIndices._get_asserted_groupindices, lambda: GroupIndices._store_results,
                                              lambda: DataflowTransactionContext._get_asserted, lambda: DataflowTransactionContext.run_analysis]),
             "bounds": {"unroll": 2, "call_depth": 3, "fuel": 400, "group_size": "1..16 (symbolic)", "constants": "K: all uint64; S: alphabet 0..17",
-                       "crosshair_timeout_s": 40 if ctx.quick else 120},
+                       "crosshair_timeout_s": 60 if ctx.quick else 120},
             "tealer_tree": tree_sha(),
         },
         "assumptions": [
